@@ -398,6 +398,245 @@ def real_convolve(c):
     return ["ret", farr(out), farr(d), farr(k)]
 
 
+def gen_process(rng):
+    """whole raster through the jitted closure `_process._process_numpy`, reached through the public functions
+    (numpy backend); MANHATTAN on integer coordinates keeps every distance exact"""
+    h, w = rng.randint(1, 5), rng.randint(1, 6)
+    sx, sy = rng.choice([1, 1, 2, 3]), rng.choice([1, 1, 2, 5])
+    x0, y0 = rng.randint(-3, 3), rng.randint(-3, 3)
+    xdir, ydir = rng.choice([1, 1, -1]), rng.choice([1, 1, -1])
+    xs = [x0 + xdir * sx * j for j in range(w)]
+    ys = [y0 + ydir * sy * i for i in range(h)]
+    p = rng.choice([0.1, 0.3, 0.6])
+    vals = [0.0 if rng.random() > p else float(rng.choice([1, 2, 3])) for _ in range(h * w)]
+    if rng.random() < 0.2:
+        vals[rng.randrange(h * w)] = rng.choice([NAN, INF])
+    img = np.array(vals).reshape(h, w)
+    targets = rng.choice([[], [], [1.0], [2.0, 3.0], [0.0], [9.0]])
+    md = rng.choice([None, None, 1.0, 2.0, 3.0, 5.0, 8.0, 2.5])
+    return dict(img=img.tolist(), xs=xs, ys=ys, targets=targets, md=md, mode=rng.choice([0, 0, 1, 2]))
+
+
+def line_process(c):
+    img = np.array(c["img"], dtype=np.float64)
+    h, w = img.shape
+    xg = np.tile(np.array(c["xs"], dtype=np.float64), h).reshape(h, w)
+    yg = np.repeat(np.array(c["ys"], dtype=np.float64), w).reshape(h, w)
+    md = INF if c["md"] is None else c["md"]
+    return (f"af.img={farr(img)} af.x_coords={farr(xg)} af.y_coords={farr(yg)} af.target_values={farr(c['targets'])} "
+            f"f.max_distance={fval(md)} i.distance_metric=2 i.process_mode={c['mode']}")
+
+
+def real_process(c):
+    import xarray as xr
+    px = mod("xrspatial.proximity")
+    img = np.array(c["img"], dtype=np.float64)
+    r = xr.DataArray(img.copy(), dims=["y", "x"], coords=dict(y=np.array(c["ys"], dtype=np.float64),
+                                                            x=np.array(c["xs"], dtype=np.float64)))
+    f = [px.proximity, px.allocation, px.direction][c["mode"]]
+    kw = dict(target_values=list(c["targets"]), distance_metric="MANHATTAN")
+    if c["md"] is not None:
+        kw["max_distance"] = c["md"]
+    out = np.asarray(f(r, **kw).data)
+    return ["ret", ("img_distance" if c["mode"] == 0 else "output_img", farr(out))]
+
+
+def gen_direction(rng):
+    g = lambda: float(rng.randint(-4, 4)) / rng.choice([1, 1, 2])
+    x1, y1 = g(), g()
+    if rng.random() < 0.4:
+        x2, y2 = (x1, g()) if rng.random() < 0.5 else (g(), y1)
+    else:
+        x2, y2 = g(), g()
+    return dict(x1=x1, x2=x2, y1=y1, y2=y2)
+
+
+def line_direction(c):
+    return f"f.x1={fval(c['x1'])} f.x2={fval(c['x2'])} f.y1={fval(c['y1'])} f.y2={fval(c['y2'])}"
+
+
+def real_direction(c):
+    f = mod("xrspatial.proximity")._calc_direction
+    return ["ret", fval(f(c["x1"], c["x2"], c["y1"], c["y2"]))]
+
+
+def gen_mean(rng):
+    data = grid(rng, [0.0, 1.0, 2.0, 3.0, -1.0, 0.5, NAN, NAN, INF], 5, 5)
+    ex = rng.choice([[NAN], [NAN], [], [0.0], [NAN, 1.0], [INF], [2.0, 3.0]])
+    return dict(data=data.tolist(), ex=ex)
+
+
+def line_mean(c):
+    return f"af.data={farr(c['data'])} af.excludes={farr(c['ex'])}"
+
+
+def real_mean(c):
+    f = mod("xrspatial.focal")._mean_numpy
+    d, ex = np.array(c["data"], dtype=np.float64), np.array(c["ex"], dtype=np.float64)
+    out = f(d, ex)
+    return ["ret", farr(out), farr(d), farr(ex)]
+
+
+def gen_apply(rng):
+    kh, kw = rng.choice([1, 3, 3, 5]), rng.choice([1, 3, 3, 5])
+    data = grid(rng, [0.0, 1.0, 2.0, 3.0, -1.0, 0.5, 8.0, NAN, NAN], 6, 6)
+    pool = [1.0, 1.0, 1.0, 0.0, 0.0] + ([2.0, 0.5, -1.0, NAN] if rng.random() < 0.3 else [])
+    kernel = np.array(pick_vals(rng, pool, kh * kw)).reshape(kh, kw)
+    return dict(data=data.tolist(), kernel=kernel.tolist())
+
+
+def line_apply(c):
+    return f"af.data={farr(c['data'])} af.kernel={farr(c['kernel'])}"
+
+
+def real_apply(fname):
+    def real(c):
+        fo = mod("xrspatial.focal")
+        d, k = np.array(c["data"], dtype=np.float64), np.array(c["kernel"], dtype=np.float64)
+        out = fo._apply_numpy(d, k, getattr(fo, fname))
+        return ["ret", farr(out), farr(d), farr(k)]
+    return real
+
+
+def gen_area(rng):
+    kind = rng.random()
+    vals = [0.0, 1.0, 1.0, 2.0] if kind < 0.5 else [1.0, 2.0] if kind < 0.8 else [0.0, 1.0, 2.0, 3.0, 1.00000001, 1.5]
+    pool = vals + ([NAN] if rng.random() < 0.5 else [])
+    data = grid(rng, pool, 5, 6)
+    return dict(data=data.tolist(), n=rng.choice([4, 8]))
+
+
+def line_area(c):
+    return f"af.data={farr(c['data'])} i.n={c['n']}"
+
+
+def real_area(c):
+    f = mod("xrspatial.zonal")._area_connectivity
+    d = np.array(c["data"], dtype=np.float64)
+    out = f(d, c["n"])
+    return ["ret", farr(out), farr(d)]
+
+
+# ---- the red-black status tree of viewshed.py: a case is the arrays after a random history built with the real
+# routines, plus one final operation
+VS_N = 12
+
+
+def vs_mod():
+    return importlib.import_module("xrspatial.viewshed")
+
+
+def vs_value(rng, key):
+    g = sorted(float(rng.randint(-8, 8)) / 2 for _ in range(3))
+    rng.shuffle(g)
+    a0 = float(rng.randint(0, 20)) / 4
+    return [float(key), g[0], g[1], g[2], a0, a0 + 0.25, a0 + 0.5, 0.0]
+
+
+def vs_build(rng, n_ops):
+    v = vs_mod()
+    tv = np.zeros((VS_N, 8), dtype=np.float64)
+    tn = np.zeros((VS_N, 4), dtype=np.int64)
+    root = int(v._create_status_struct(tv, tn))
+    free = list(range(1, VS_N - 1))
+    keys = []
+    for _ in range(n_ops):
+        if keys and (rng.random() < 0.35 or not free):
+            k = keys.pop(rng.randrange(len(keys)))
+            root, d = v._delete_from_tree(tv, tn, root, float(k))
+            root = int(root)
+            free.append(int(d))
+        elif free:
+            k = rng.choice([x for x in range(1, 40) if x not in keys])
+            nid = free.pop(rng.randrange(len(free)))
+            root = int(v._insert_into_tree(tv, tn, root, nid, np.array(vs_value(rng, k))))
+            keys.append(k)
+    return tv, tn, root, free, keys
+
+
+def gen_vs(op):
+    def gen(rng):
+        tv, tn, root, free, keys = vs_build(rng, rng.randint(0, 14))
+        c = dict(op=op, tv=tv.tolist(), tn=tn.tolist(), root=root)
+        if op == "insert":
+            if not free:
+                keys_ = keys
+                tv, tn, root, free, keys = vs_build(rng, 3)
+                c.update(tv=tv.tolist(), tn=tn.tolist(), root=root)
+            k = rng.choice([x for x in range(1, 40) if x not in keys])
+            c.update(node_id=rng.choice(free), value=vs_value(rng, k))
+        elif op in ("delete", "search"):
+            present = bool(keys) and rng.random() < 0.8
+            c.update(key=float(rng.choice(keys)) if present else float(rng.choice([x for x in range(1, 40) if x not in keys])))
+            if op == "delete" and not present:
+                c["absent"] = True
+        elif op == "query":
+            present = bool(keys)
+            c.update(key=float(rng.choice(keys)) if present else 5.0, ang=float(rng.randint(0, 22)) / 4,
+                     grad=float(rng.randint(-8, 8)) / 2)
+        elif op in ("min", "succ", "fvmin"):
+            used = [i for i in range(VS_N - 1) if i not in free]
+            c.update(x=rng.choice(used))
+        elif op in ("lrot", "rrot"):
+            side = 2 if op == "lrot" else 1
+            cand = [i for i in range(1, VS_N - 1) if i not in free and tn[i, side] != -1]
+            c.update(x=rng.choice(cand) if cand else None)
+        return c
+    return gen
+
+
+def line_vs(c):
+    base = f"af.tree_vals={farr(c['tv'])} ai.tree_nodes={iarr(c['tn'])} "
+    op = c["op"]
+    if op == "insert":
+        return base + f"i.root={c['root']} i.node_id={c['node_id']} af.value={farr(c['value'])}"
+    if op in ("delete", "search"):
+        return base + f"i.root={c['root']} f.key={fval(c['key'])}"
+    if op == "query":
+        return base + f"i.root={c['root']} f.distance={fval(c['key'])} f.angle={fval(c['ang'])} f.gradient={fval(c['grad'])}"
+    if op == "fvmin":
+        return f"af.tree_vals={farr(c['tv'])} i.node_id={c['x']}"
+    if op in ("min", "succ"):
+        return f"ai.tree_nodes={iarr(c['tn'])} i.x={c['x']}"
+    if op == "lrot":
+        return base + f"i.root={c['root']} i.x={c['x'] if c['x'] is not None else 0}"
+    return base + f"i.root={c['root']} i.y={c['x'] if c['x'] is not None else 0}"
+
+
+def real_vs(c):
+    v = vs_mod()
+    tv, tn = np.array(c["tv"], dtype=np.float64), np.array(c["tn"], dtype=np.int64)
+    op = c["op"]
+    if op == "insert":
+        val = np.array(c["value"], dtype=np.float64)
+        root = v._insert_into_tree(tv, tn, c["root"], c["node_id"], val)
+        return ["ret", str(int(root)), farr(tv), iarr(tn), farr(val)]
+    if op == "delete":
+        if c.get("absent"):
+            return ["err", "ValueError"]
+        root, d = v._delete_from_tree(tv, tn, c["root"], c["key"])
+        return ["ret", str(int(root)), str(int(d)), farr(tv), iarr(tn)]
+    if op == "search":
+        return ["ret", str(int(v._search_for_node(tv, tn, c["root"], c["key"]))), farr(tv), iarr(tn)]
+    if op == "query":
+        return ["ret", fval(v._max_grad_in_status_struct(tv, tn, c["root"], c["key"], c["ang"], c["grad"])), farr(tv), iarr(tn)]
+    if op == "fvmin":
+        return ["ret", fval(v._find_value_min_value(tv, c["x"])), farr(tv)]
+    if op == "min":
+        return ["ret", str(int(v._tree_minimum(tn, c["x"]))), iarr(tn)]
+    if op == "succ":
+        return ["ret", str(int(v._tree_successor(tn, c["x"]))), iarr(tn)]
+    if c["x"] is None:
+        return ["skip"]
+    f = v._left_rotate if op == "lrot" else v._right_rotate
+    root = f(tv, tn, c["root"], c["x"])
+    return ["ret", str(int(root)), farr(tv), iarr(tn)]
+
+
+# programs whose numeric results go through libm / float32 rounding: compared within this relative tolerance
+TOL = {"calcDirection": 1e-6, "processNumpy": 1e-6, "applyMean": 1e-6, "applySum": 1e-6, "applyMin": 1e-6,
+       "applyMax": 1e-6, "applyRange": 1e-6, "applyStd": 2e-6, "applyVar": 2e-6}
+
 SPECS = {
     "cpuBin": (gen_cpu_bin, line_cpu_bin, real_cpu_bin),
     "strides": (gen_strides, line_strides, real_strides),
@@ -411,6 +650,26 @@ SPECS = {
     "reconstructPath": (gen_reconstruct, line_reconstruct, real_reconstruct),
     "proximityLine": (gen_prox_line, line_prox_line, real_prox_line),
     "convolve2d": (gen_convolve, line_convolve, real_convolve),
+    "processNumpy": (gen_process, line_process, real_process),
+    "calcDirection": (gen_direction, line_direction, real_direction),
+    "areaConnectivity": (gen_area, line_area, real_area),
+    "meanNumpy": (gen_mean, line_mean, real_mean),
+    "applyMean": (gen_apply, line_apply, real_apply("_calc_mean")),
+    "applySum": (gen_apply, line_apply, real_apply("_calc_sum")),
+    "applyMin": (gen_apply, line_apply, real_apply("_calc_min")),
+    "applyMax": (gen_apply, line_apply, real_apply("_calc_max")),
+    "applyRange": (gen_apply, line_apply, real_apply("_calc_range")),
+    "applyStd": (gen_apply, line_apply, real_apply("_calc_std")),
+    "applyVar": (gen_apply, line_apply, real_apply("_calc_var")),
+    "vsInsert": (gen_vs("insert"), line_vs, real_vs),
+    "vsDelete": (gen_vs("delete"), line_vs, real_vs),
+    "vsSearch": (gen_vs("search"), line_vs, real_vs),
+    "vsQuery": (gen_vs("query"), line_vs, real_vs),
+    "vsFindValueMin": (gen_vs("fvmin"), line_vs, real_vs),
+    "vsTreeMinimum": (gen_vs("min"), line_vs, real_vs),
+    "vsTreeSuccessor": (gen_vs("succ"), line_vs, real_vs),
+    "vsLeftRotate": (gen_vs("lrot"), line_vs, real_vs),
+    "vsRightRotate": (gen_vs("rrot"), line_vs, real_vs),
 }
 
 
@@ -432,8 +691,20 @@ def canon(fields):
     return out
 
 
-def compare(real, reply):
-    """real: [ctl or '*', fields...]; reply: driver line"""
+def close_field(a, b, tol):
+    if ":" in a and ":" in b:
+        sa, ba = a.split(":", 1)
+        sb, bb = b.split(":", 1)
+        ta, tb = ba.split(","), bb.split(",")
+        return sa == sb and len(ta) == len(tb) and all(close_field(x, y, tol) for x, y in zip(ta, tb))
+    if a == "" or b == "":
+        return a == b
+    return common.close(common.untok(a), common.untok(b), rel=tol, abs_=tol)
+
+
+def compare(real, reply, prog=None, rets=None):
+    """real: [ctl or '*', fields...]; reply: driver line.  A field of `real` may be a pair (result name, value):
+    then only the result with that name is compared (programs that return one of several arrays)."""
     got = reply.split("|")
     if len(got) < 2 or got[1] != "ok":
         return False
@@ -443,7 +714,33 @@ def compare(real, reply):
             return False
     elif ctl != real[0]:
         return False
-    return canon(fields) == canon(real[1:])
+    want = real[1:]
+    if any(isinstance(f, tuple) for f in want):
+        names = rets or []
+        pairs = []
+        for nm, val in want:
+            if nm not in names:
+                return False
+            pairs.append((fields[names.index(nm)], val))
+        fields, want = [p[0] for p in pairs], [p[1] for p in pairs]
+    tol = TOL.get(prog)
+    if tol:
+        return len(fields) == len(want) and all(close_field(a, b, tol) for a, b in zip(fields, want))
+    return canon(fields) == canon(want)
+
+
+_RETS = {}
+
+
+def ret_names(prog):
+    """names of the results of a generated program, read from Gen/report.json"""
+    if not _RETS:
+        import json
+        import os
+        rep = json.load(open(os.path.join(common.LEAN, "XrsVerif", "Gen", "report.json")))
+        for k, v in rep.get("facts:IL.lean", {}).items():
+            _RETS[k] = [r[0] for r in v.get("rets", [])]
+    return _RETS.get(prog, [])
 
 
 def stream(r, progs, n, driver=None):
@@ -466,13 +763,15 @@ def stream(r, progs, n, driver=None):
         for c, rv, rep in zip(cases, reals, replies):
             key = dict(prog=prog, case=c)
             r.case(key, desc=f"il:{prog} {str(c)[:120]}", nontrivial=True, tags=[f"il:{prog}"])
+            if rv[0] == "skip":
+                continue
             if rv[0] == "err":
                 ok = rep.startswith("err:")
             else:
-                ok = compare(rv, rep)
+                ok = compare(rv, rep, prog, ret_names(prog))
             if not ok:
                 bad += 1
-                r.disagree(f"il:{prog}", key, "|".join(rv)[:600], rep[:600])
+                r.disagree(f"il:{prog}", key, "|".join(str(x) for x in rv)[:600], rep[:600])
     return bad
 
 
@@ -483,7 +782,7 @@ def replay_case(case, driver=None):
     gen, line, real = SPECS[prog]
     rv = real(c)
     rep = driver.ask([f"il prog={prog} " + line(c)])[0]
-    return 0 if compare(rv, rep) else 1
+    return 0 if compare(rv, rep, prog, ret_names(prog)) else 1
 
 
 if __name__ == "__main__":
